@@ -4,10 +4,12 @@ the footprint premise), regenerated from the source on every run.
 A slot is named by the attribute / constant key it is reached by (`_statistics`, `converted_max`, `row_groups`, `seps[*]` for
 computed subscripts of a module global).  Conservative on purpose:
 
+* implicit dispatch: `x[i]`, `len(x)`, `str(x)`, comparisons, iteration, truth tests, f-strings, copy/deepcopy/pickle calls are
+  calls of the corresponding dunder methods of EVERY package class;
 * call graph by name: `f(...)` resolves to the module-level function f of the same module or to the imported package
   function; `x.m(...)` resolves to EVERY method m of EVERY package class (and to module function m when x is an imported
   package module); an attribute load `x.p` where p is a property of some package class is also a call of that property;
-* reads(function) = every attribute load (any receiver), every constant-key subscript load, every hasattr/getattr with a
+* reads(function) = every attribute load (any receiver, callees of method-style calls included), every constant-key subscript load, every hasattr/getattr with a
   constant name, every load of a mutable module global; reads(op) = union over the functions reachable from its entries;
 * writes(function) = the write sites of translators/sharedstate.py in that function whose base can be shared
   (self outside constructors, global, default, classattr, param), with their pattern.
@@ -108,6 +110,11 @@ def scan(repo):
                 f = n.func
                 callee_nodes.add(id(f))
                 if isinstance(f, ast.Name):
+                    fn.calls_meth.update({"len": ("__len__",), "str": ("__str__", "__repr__"), "repr": ("__repr__",), "bool": ("__bool__", "__len__"),
+                                          "iter": ("__iter__",), "next": ("__next__",), "hash": ("__hash__",), "copy": ("__copy__", "copy"),
+                                          "deepcopy": ("__deepcopy__",), "getattr": ("__getattr__",), "setattr": ("__setattr__",),
+                                          "dir": ("__dir__",), "list": ("__iter__", "__len__"), "dict": ("__iter__", "keys", "__getitem__"),
+                                          "print": ("__str__", "__repr__")}.get(f.id, ()))
                     if f.id in ("hasattr", "getattr") and len(n.args) >= 2 and isinstance(n.args[1], ast.Constant):
                         fn.reads.add(str(n.args[1].value))
                     fn.calls_bare.add(("name", f.id))
@@ -116,20 +123,37 @@ def scan(repo):
                         fn.calls_mod.add((imports[m][f.value.id][1], f.attr))
                     else:
                         fn.calls_meth.add(f.attr)
+                        fn.calls_meth.update({"copy": ("__copy__",), "deepcopy": ("__deepcopy__",), "dumps": ("__getstate__", "__reduce_ex__"),
+                                              "loads": ("__setstate__",), "format": ("__str__", "__repr__", "__format__")}.get(f.attr, ()))
         for n in ast.walk(fn.node):
-            if isinstance(n, ast.Attribute) and isinstance(n.ctx, ast.Load) and id(n) not in callee_nodes:
+            if isinstance(n, ast.Attribute) and isinstance(n.ctx, ast.Load):
+                # every attribute load counts as a read, also the callee of `x.m(...)` (the bytecode does not always tell them
+                # apart: calls on import-bound names use a plain LOAD_ATTR)
                 if isinstance(n.value, ast.Name) and imports[m].get(n.value.id, (None,))[0] == "mod":
                     if n.attr in mutable_globals.get(imports[m][n.value.id][1], ()):
                         fn.reads.add(n.attr + "[*]")
-                    continue
                 fn.reads.add(n.attr)
-                if n.attr in properties:
+                if n.attr in properties and id(n) not in callee_nodes:
                     fn.calls_meth.add(n.attr)
             elif isinstance(n, ast.Subscript) and isinstance(n.ctx, ast.Load):
+                fn.calls_meth.add("__getitem__")            # implicit dispatch: x[i] may be a package class's __getitem__
                 if isinstance(n.slice, ast.Constant) and isinstance(n.slice.value, str) and n.slice.value.isidentifier():
                     fn.reads.add(n.slice.value)
-            elif isinstance(n, ast.Name) and isinstance(n.ctx, ast.Load) and n.id in mutable_globals[m]:
-                fn.reads.add(n.id + "[*]")
+            elif isinstance(n, ast.Subscript):
+                fn.calls_meth.add("__setitem__" if isinstance(n.ctx, ast.Store) else "__delitem__")
+            elif isinstance(n, ast.Compare):
+                for o_ in n.ops:
+                    fn.calls_meth.add({ast.Eq: "__eq__", ast.NotEq: "__ne__", ast.In: "__contains__", ast.NotIn: "__contains__"}.get(type(o_), "__lt__"))
+            elif isinstance(n, (ast.For, ast.comprehension)):
+                fn.calls_meth.update(("__iter__", "__next__", "__len__"))
+            elif isinstance(n, (ast.If, ast.While, ast.IfExp, ast.BoolOp)) or (isinstance(n, ast.UnaryOp) and isinstance(n.op, ast.Not)):
+                fn.calls_meth.update(("__bool__", "__len__"))
+            elif isinstance(n, (ast.JoinedStr, ast.FormattedValue)):
+                fn.calls_meth.update(("__str__", "__repr__", "__format__"))
+            elif isinstance(n, ast.Name) and isinstance(n.ctx, ast.Load):
+                if n.id in mutable_globals[m]:
+                    fn.reads.add(n.id + "[*]")
+                fn.calls_bare.add(("value", n.id))       # a function used as a value (table entry, callback) may be called
     return fns, by_method, by_modfunc, imports
 
 
@@ -172,10 +196,11 @@ def build(repo, inv=None):
                 imp = imports[fn.module].get(name)
                 if imp and imp[0] == "func" and (imp[1], imp[2]) in by_modfunc:
                     out.add(by_modfunc[(imp[1], imp[2])])
-                # a class called by name: its constructor
-                for cand in by_method.get("__init__", []):
-                    if cand[1] == name + ".__init__":
-                        out.add(cand)
+                # a class CALLED by name: its constructor (a class used as a value - object.__new__(C) - runs no constructor)
+                if kind == "name":
+                    for cand in by_method.get("__init__", []):
+                        if cand[1] == name + ".__init__":
+                            out.add(cand)
         for mname in fn.calls_meth:
             out.update(by_method.get(mname, []))
         for mod, name in fn.calls_mod:
